@@ -146,7 +146,7 @@ Definition lnext (s : state) : lbl :=
   | WWaitT _ | WWaitU => AWait (flag s)
   | WTestNeg => ARdTl
   | PRead => ARdTl
-  | PSel _ => ASelect (0 <? pipe s)
+  | PSel _ => ASelect (watched s) (watched s && (0 <? pipe s))
   | PDrain => APipeRd
   | LClr => AClr
   end.
